@@ -1,12 +1,700 @@
 package stableopt
 
 import (
+	"bytes"
+	"fmt"
+	"sort"
+	"strings"
 	"testing"
 
+	"google.golang.org/protobuf/proto"
+	"google.golang.org/protobuf/reflect/protoreflect"
+	"google.golang.org/protobuf/types/descriptorpb"
+
+	"github.com/bufbuild/protocompile"
+	"github.com/bufbuild/protocompile/internal/verifmon/gen"
 	"github.com/bufbuild/protocompile/internal/verifmon/vlib"
+	"github.com/bufbuild/protocompile/options"
 )
+
+// C22 — options.StripSourceRetentionOptionsFromFile is exact.
+//
+// Oracle: the independent reflective reference gen.RefStrip (calibrated on
+// protoc's recorded output for retention.proto), protoc's recorded output
+// itself for the R2 retention files, and for source info the set of locations
+// computed from the reference: a location must go iff its path lies under a
+// removed option field or under a removed options message.
 
 func TestC22(t *testing.T) {
 	r := vlib.Start(t, "C22")
 	defer r.Finish()
+	r.Extra("rule", "every file of every generated model (option schema with retention SOURCE/RUNTIME/unset on extensions and on fields of the value messages, 3 nesting levels, repeated/map/group/extension-of-extension values) "+
+		"in 2 renderings x 3 source-info modes (none, standard, standard+extra option locations); R2 retention.proto/options_message.proto against protoc's recorded output; fixed minimal inputs. "+
+		"one evaluation = one compiled file stripped and checked (output == reference, input untouched, idempotent, locations). non-trivial = the file sets >=1 source-retained option field; distinct = descriptor bytes")
+	r.Extra("assumptions", []string{
+		"gen.RefStrip is the specification: a field declared retention=RETENTION_SOURCE is removed wherever it occurs inside an options message, an options message left empty is removed (calibrated: equals protoc's recorded output on retention.proto)",
+		"a location `points into` a removed option iff its path has the removed field's path (or the removed options message's path) as a prefix",
+		"the index of a map entry in a location path is not derivable from the descriptor: locations below a map-valued option whose entries differ in what is removed are not decided",
+	})
+	c22Fixed(r)
+	c22Generated(r)
+	c22R2(r)
+}
+
+// ---------------------------------------------------------------------------
+// a differ that reports every difference, classifying the ones that are a
+// source-retained field surviving the strip
+// ---------------------------------------------------------------------------
+
+type stripDiff struct {
+	Path  string
+	What  string // "kept-source-retained", "missing", "extra", "value"
+	Depth int    // nesting depth below the options message (0 = top-level option field)
+	Via   string // containers on the way: msg, list, map, ext
+	Text  string
+}
+
+func retained(fd protoreflect.FieldDescriptor) bool {
+	fo, ok := fd.Options().(*descriptorpb.FieldOptions)
+	return ok && fo.GetRetention() == descriptorpb.FieldOptions_RETENTION_SOURCE
+}
+
+// diffStrip compares got (output of the code under test) with ref (reference).
+func diffStrip(got, ref *descriptorpb.FileDescriptorProto) []stripDiff {
+	var out []stripDiff
+	var rec func(path string, a, b protoreflect.Message, inOpts bool, depth int, via string)
+	fname := func(fd protoreflect.FieldDescriptor) string {
+		if fd.IsExtension() {
+			return "(" + string(fd.FullName()) + ")"
+		}
+		return string(fd.Name())
+	}
+	add := func(d stripDiff) {
+		if len(out) < 200 {
+			out = append(out, d)
+		}
+	}
+	rec = func(path string, a, b protoreflect.Message, inOpts bool, depth int, via string) {
+		seen := map[protoreflect.FieldNumber]bool{}
+		visit := func(fd protoreflect.FieldDescriptor, av protoreflect.Value, hasA bool) {
+			if seen[fd.Number()] {
+				return
+			}
+			seen[fd.Number()] = true
+			p := path + "." + fname(fd)
+			bfd := fd
+			hasB := b.Has(bfd)
+			nowOpts := inOpts || (fd.Message() != nil && isOptionsMsg(fd.Message()))
+			d, v := depth, via
+			if inOpts {
+				d = depth + 1
+			}
+			switch {
+			case hasA && !hasB:
+				what := "extra"
+				if inOpts && retained(fd) {
+					what = "kept-source-retained"
+				}
+				add(stripDiff{Path: p, What: what, Depth: depth, Via: via, Text: fmt.Sprintf("%s: present in the output, absent from the reference", p)})
+			case !hasA && hasB:
+				add(stripDiff{Path: p, What: "missing", Depth: depth, Via: via, Text: fmt.Sprintf("%s: absent from the output, present in the reference", p)})
+			case hasA && hasB:
+				bv := b.Get(bfd)
+				switch {
+				case fd.IsMap():
+					if fd.MapValue().Message() != nil {
+						av.Map().Range(func(k protoreflect.MapKey, mv protoreflect.Value) bool {
+							if !bv.Map().Has(k) {
+								add(stripDiff{Path: p, What: "extra", Depth: depth, Via: via, Text: fmt.Sprintf("%s[%v]: map key only in the output", p, k.Interface())})
+								return true
+							}
+							rec(fmt.Sprintf("%s[%v]", p, k.Interface()), mv.Message(), bv.Map().Get(k).Message(), nowOpts, d, v+cont(inOpts, "map>"))
+							return true
+						})
+						if av.Map().Len() != bv.Map().Len() {
+							add(stripDiff{Path: p, What: "value", Depth: depth, Via: via, Text: fmt.Sprintf("%s: map size %d != %d", p, av.Map().Len(), bv.Map().Len())})
+						}
+					} else if !av.Equal(bv) {
+						add(stripDiff{Path: p, What: "value", Depth: depth, Via: via, Text: fmt.Sprintf("%s: map differs", p)})
+					}
+				case fd.IsList():
+					al, bl := av.List(), bv.List()
+					if al.Len() != bl.Len() {
+						add(stripDiff{Path: p, What: "value", Depth: depth, Via: via, Text: fmt.Sprintf("%s: list length %d != %d", p, al.Len(), bl.Len())})
+						return
+					}
+					for i := 0; i < al.Len(); i++ {
+						if fd.Message() != nil {
+							rec(fmt.Sprintf("%s[%d]", p, i), al.Get(i).Message(), bl.Get(i).Message(), nowOpts, d, v+cont(inOpts, "list>"))
+						} else if !al.Get(i).Equal(bl.Get(i)) && !(fd.Kind() == protoreflect.FloatKind || fd.Kind() == protoreflect.DoubleKind) {
+							add(stripDiff{Path: p, What: "value", Depth: depth, Via: via, Text: fmt.Sprintf("%s[%d]: %v != %v", p, i, al.Get(i).Interface(), bl.Get(i).Interface())})
+						}
+					}
+				case fd.Message() != nil:
+					c := "msg>"
+					if fd.IsExtension() && inOpts && depth > 0 {
+						c = "ext-of-ext>"
+					}
+					if !inOpts {
+						c = ""
+					}
+					rec(p, av.Message(), bv.Message(), nowOpts, d, v+c)
+				default:
+					if !av.Equal(bv) {
+						if fd.Kind() == protoreflect.FloatKind || fd.Kind() == protoreflect.DoubleKind {
+							x, y := av.Float(), bv.Float()
+							if x != x && y != y {
+								return
+							}
+						}
+						add(stripDiff{Path: p, What: "value", Depth: depth, Via: via, Text: fmt.Sprintf("%s: %v != %v", p, av.Interface(), bv.Interface())})
+					}
+				}
+			}
+		}
+		a.Range(func(fd protoreflect.FieldDescriptor, v protoreflect.Value) bool { visit(fd, v, true); return true })
+		b.Range(func(fd protoreflect.FieldDescriptor, v protoreflect.Value) bool {
+			if !seen[fd.Number()] {
+				visit(fd, protoreflect.Value{}, false)
+			}
+			return true
+		})
+		if !bytes.Equal(a.GetUnknown(), b.GetUnknown()) {
+			add(stripDiff{Path: path, What: "value", Depth: depth, Via: via, Text: path + ": unknown fields differ"})
+		}
+	}
+	rec("", got.ProtoReflect(), ref.ProtoReflect(), false, 0, "")
+	return out
+}
+
+func cont(inOpts bool, c string) string {
+	if inOpts {
+		return c
+	}
+	return ""
+}
+
+// diffSig is the stable signature of one strip difference.
+func diffSig(d stripDiff) string {
+	switch {
+	case d.What == "kept-source-retained" && d.Depth >= 1:
+		return "source-retained field kept inside a message-valued option (nested below the top level of the options message)"
+	case d.What == "kept-source-retained":
+		return "source-retained top-level option field kept"
+	}
+	return d.What + ": " + gen.DiffClass(d.Path+": x")
+}
+
+// ---------------------------------------------------------------------------
+// expected removals of source info locations, computed from the reference
+// ---------------------------------------------------------------------------
+
+// pathPat is a location path prefix; -1 matches any index.
+type pathPat []int32
+
+func (p pathPat) matchesPrefixOf(path []int32) bool {
+	if len(path) < len(p) {
+		return false
+	}
+	for i, x := range p {
+		if x != -1 && x != path[i] {
+			return false
+		}
+	}
+	return true
+}
+
+type stripCoverage struct {
+	top, nested1, nested2, inList, inMap, inExtOfExt, wholeMsg int
+}
+
+func (c *stripCoverage) any() bool { return c.top+c.nested1+c.nested2 > 0 }
+
+// expectedRemovals walks the decoded file and returns the prefixes under
+// which locations must go, and the prefixes under which nothing is decided.
+func expectedRemovals(dec, ref *descriptorpb.FileDescriptorProto) (removed, undecided []pathPat, cov stripCoverage) {
+	refHas := map[string]bool{}
+	walkOptionSites(ref, func(s *optSite) { refHas[pathStr(s.Path)] = s.Has })
+	relDepth, relUndecided := 0, false // inside a map value paths are relative: a nested undecidable map makes the outer one undecidable
+	var recMsg func(path []int32, m protoreflect.Message, depth int, viaList, viaMap, viaExt bool) []pathPat
+	recMsg = func(path []int32, m protoreflect.Message, depth int, viaList, viaMap, viaExt bool) []pathPat {
+		var out []pathPat
+		m.Range(func(fd protoreflect.FieldDescriptor, v protoreflect.Value) bool {
+			fp := append(append([]int32(nil), path...), int32(fd.Number()))
+			if retained(fd) {
+				out = append(out, pathPat(fp))
+				switch {
+				case depth == 0:
+					cov.top++
+				case depth == 1:
+					cov.nested1++
+				default:
+					cov.nested2++
+				}
+				if viaList {
+					cov.inList++
+				}
+				if viaMap {
+					cov.inMap++
+				}
+				if viaExt || (depth > 0 && fd.IsExtension()) {
+					cov.inExtOfExt++
+				}
+				return true
+			}
+			switch {
+			case fd.IsMap():
+				if fd.MapValue().Message() == nil {
+					return true
+				}
+				// relative removals per entry; decided only if identical in every entry
+				var rels []string
+				var first []pathPat
+				relDepth++
+				savedUnd := relUndecided
+				relUndecided = false
+				v.Map().Range(func(_ protoreflect.MapKey, mv protoreflect.Value) bool {
+					ps := recMsg(nil, mv.Message(), depth+1, viaList, true, viaExt)
+					var ss []string
+					for _, p := range ps {
+						ss = append(ss, pathStr(p))
+					}
+					sort.Strings(ss)
+					rels = append(rels, strings.Join(ss, ","))
+					if first == nil {
+						first = ps
+					}
+					return true
+				})
+				relDepth--
+				uniform := !relUndecided
+				relUndecided = savedUnd
+				for _, s := range rels {
+					if s != rels[0] {
+						uniform = false
+					}
+				}
+				if !uniform {
+					if relDepth > 0 {
+						relUndecided = true
+					} else {
+						undecided = append(undecided, pathPat(fp))
+					}
+					return true
+				}
+				for _, p := range first {
+					out = append(out, append(append(append(pathPat(nil), fp...), -1, 2), p...))
+				}
+			case fd.IsList():
+				if fd.Message() == nil {
+					return true
+				}
+				l := v.List()
+				for i := 0; i < l.Len(); i++ {
+					out = append(out, recMsg(append(append([]int32(nil), fp...), int32(i)), l.Get(i).Message(), depth+1, true, viaMap, viaExt)...)
+				}
+			case fd.Message() != nil:
+				out = append(out, recMsg(fp, v.Message(), depth+1, viaList, viaMap, viaExt || (depth > 0 && fd.IsExtension()))...)
+			}
+			return true
+		})
+		return out
+	}
+	walkOptionSites(dec, func(s *optSite) {
+		if !s.Has {
+			return
+		}
+		ps := recMsg(s.Path, s.Opts, 0, false, false, false)
+		if !refHas[pathStr(s.Path)] {
+			// the reference removed the whole options message
+			cov.wholeMsg++
+			removed = append(removed, pathPat(s.Path))
+			return
+		}
+		removed = append(removed, ps...)
+	})
+	return
+}
+
+// ---------------------------------------------------------------------------
+// the check
+// ---------------------------------------------------------------------------
+
+func locEqual(a, b *descriptorpb.SourceCodeInfo_Location) bool {
+	return a == b || proto.Equal(a, b)
+}
+
+func checkStrip(r *vlib.Run, id, where string, fd *descriptorpb.FileDescriptorProto, types gen.TypeResolver, witness map[string]any) (cov stripCoverage) {
+	w := func(extra map[string]any) map[string]any {
+		m := map[string]any{"file": fd.GetName(), "where": where}
+		for k, v := range witness {
+			m[k] = v
+		}
+		for k, v := range extra {
+			m[k] = v
+		}
+		return m
+	}
+	before := gen.DetBytes(fd)
+	var out *descriptorpb.FileDescriptorProto
+	var err error
+	pv, stack := vlib.Try(func() { out, err = options.StripSourceRetentionOptionsFromFile(fd) })
+	if pv != nil {
+		r.Eval(string(before))
+		r.Violation("c22.panic", "StripSourceRetentionOptionsFromFile panics: "+vlib.PanicSite(stack), id, w(map[string]any{"panic": fmt.Sprint(pv), "stack": trunc(stack, 3000)}))
+		return
+	}
+	if err != nil {
+		r.Eval(string(before))
+		r.Violation("c22.error", "StripSourceRetentionOptionsFromFile fails: "+gen.ClassifyErr(err.Error()), id, w(map[string]any{"error": err.Error()}))
+		return
+	}
+	if !bytes.Equal(before, gen.DetBytes(fd)) {
+		r.Violation("c22.input-mutated", where+": the input descriptor changed", id, w(nil))
+	}
+	dec, err1 := decode(fd, types)
+	ref, err2 := gen.RefStrip(fd, types)
+	got, err3 := gen.Normalize(out, types)
+	if err1 != nil || err2 != nil || err3 != nil {
+		r.Inconclusive(fmt.Sprint("C22 decode: ", err1, err2, err3))
+		return
+	}
+	removed, undecided, cov := expectedRemovals(dec, ref)
+	key := ""
+	if cov.any() {
+		key = string(before)
+	}
+	r.Eval(key)
+	// (1) output == reference
+	diffs := diffStrip(got, ref)
+	seen := map[string]bool{}
+	for _, d := range diffs {
+		sig := diffSig(d)
+		if d.What == "kept-source-retained" {
+			r.Class(fmt.Sprintf("kept source-retained field: depth %d via %s", d.Depth, d.Via))
+		}
+		if seen[sig] {
+			continue
+		}
+		seen[sig] = true
+		r.Violation("c22.output-differs", sig, id, w(map[string]any{"difference": d.Text, "all differences": diffTexts(diffs, 12), "source": witness["source"]}))
+	}
+	if len(diffs) == 0 && !proto.Equal(got, ref) {
+		r.Violation("c22.output-differs", "proto.Equal false without a structural difference", id, w(nil))
+	}
+	// (2) idempotent, and the first output is not modified by the second call
+	outBytes := gen.DetBytes(out)
+	var out2 *descriptorpb.FileDescriptorProto
+	pv, stack = vlib.Try(func() { out2, err = options.StripSourceRetentionOptionsFromFile(out) })
+	switch {
+	case pv != nil:
+		r.Violation("c22.panic", "second strip panics: "+vlib.PanicSite(stack), id, w(map[string]any{"panic": fmt.Sprint(pv)}))
+	case err != nil:
+		r.Violation("c22.error", "second strip fails: "+gen.ClassifyErr(err.Error()), id, w(nil))
+	default:
+		if !bytes.Equal(outBytes, gen.DetBytes(out)) {
+			r.Violation("c22.input-mutated", where+": the first output changed when stripped again", id, w(nil))
+		}
+		if !bytes.Equal(outBytes, gen.DetBytes(out2)) {
+			a, _ := gen.Normalize(out2, types)
+			r.Violation("c22.not-idempotent", gen.DiffClass(gen.Diff(a, got)), id, w(map[string]any{"diff strip(strip(x))!=strip(x)": gen.Diff(a, got)}))
+		}
+	}
+	if !bytes.Equal(before, gen.DetBytes(fd)) {
+		r.Violation("c22.input-mutated", where+": the input descriptor changed (after the second call)", id, w(nil))
+	}
+	// (3) source info
+	in := fd.GetSourceCodeInfo().GetLocation()
+	if len(in) == 0 {
+		if len(out.GetSourceCodeInfo().GetLocation()) != 0 {
+			r.Violation("c22.locations", "locations appear in the output of a file without source info", id, w(nil))
+		}
+		return cov
+	}
+	ol := out.GetSourceCodeInfo().GetLocation()
+	j := 0
+	nRemoved := 0
+	lseen := map[string]bool{}
+	lviol := func(sig string, loc *descriptorpb.SourceCodeInfo_Location) {
+		if lseen[sig] {
+			return
+		}
+		lseen[sig] = true
+		r.Violation("c22.locations", sig, id, w(map[string]any{"location path": loc.GetPath(), "span": loc.GetSpan(), "removed prefixes": patStrs(removed), "source": witness["source"]}))
+	}
+	for _, loc := range in {
+		must := false
+		var hit pathPat
+		for _, p := range removed {
+			if p.matchesPrefixOf(loc.Path) {
+				must, hit = true, p
+			}
+		}
+		und := false
+		for _, p := range undecided {
+			if p.matchesPrefixOf(loc.Path) {
+				und = true
+			}
+		}
+		keptHere := j < len(ol) && locEqual(ol[j], loc)
+		if keptHere {
+			j++
+		} else {
+			nRemoved++
+		}
+		switch {
+		case must && keptHere:
+			// which kind of removal was missed?
+			site := optionsPrefixLen(dec, loc.Path)
+			if site >= 0 && len(hit) > site+1 {
+				lviol("location kept although its path lies under a removed NESTED source-retained field", loc)
+			} else if site >= 0 && len(hit) == site {
+				lviol("location kept although its options message was removed entirely", loc)
+			} else {
+				lviol("location kept although its path lies under a removed top-level option field", loc)
+			}
+		case !must && !und && !keptHere:
+			lviol("location removed although its path is not under any removed option", loc)
+		}
+	}
+	if j != len(ol) {
+		r.Violation("c22.locations", "the output has locations that are not the input's locations in order", id, w(map[string]any{"matched": j, "output locations": len(ol)}))
+	}
+	r.ClassN(where+": locations removed", int64(nRemoved))
+	return cov
+}
+
+// optionsPrefixLen returns the length of the prefix of path that is the path
+// of an options message of fd (-1 if the path does not enter one).
+func optionsPrefixLen(fd *descriptorpb.FileDescriptorProto, path []int32) int {
+	best := -1
+	walkOptionSites(fd, func(s *optSite) {
+		if len(path) >= len(s.Path) {
+			ok := true
+			for i, x := range s.Path {
+				if path[i] != x {
+					ok = false
+				}
+			}
+			if ok && len(s.Path) > best {
+				best = len(s.Path)
+			}
+		}
+	})
+	return best
+}
+
+func diffTexts(ds []stripDiff, n int) []string {
+	var out []string
+	for i, d := range ds {
+		if i >= n {
+			out = append(out, fmt.Sprintf("… %d more", len(ds)-n))
+			break
+		}
+		out = append(out, d.Text)
+	}
+	return out
+}
+
+func patStrs(ps []pathPat) []string {
+	var out []string
+	for i, p := range ps {
+		if i >= 30 {
+			break
+		}
+		out = append(out, strings.ReplaceAll(pathStr(p), "-1", "*"))
+	}
+	return out
+}
+
+var c22Modes = []struct {
+	name string
+	mode protocompile.SourceInfoMode
+}{
+	{"no-source-info", protocompile.SourceInfoNone},
+	{"standard", protocompile.SourceInfoStandard},
+	{"standard+option-locations", protocompile.SourceInfoStandard | protocompile.SourceInfoExtraOptionLocations},
+}
+
+func addCov(r *vlib.Run, c stripCoverage) {
+	add := func(n int, name string) {
+		if n > 0 {
+			r.Class("coverage: file with " + name)
+		}
+	}
+	add(c.top, "source-retained top-level option field set")
+	add(c.nested1, "source-retained field set at depth 1 of a message-valued option")
+	add(c.nested2, "source-retained field set at depth >=2")
+	add(c.inList, "source-retained field inside a repeated message element")
+	add(c.inMap, "source-retained field inside a map value")
+	add(c.inExtOfExt, "source-retained field under/as an extension of an option value")
+	add(c.wholeMsg, "options message removed entirely")
+}
+
+func c22Generated(r *vlib.Run) {
+	n := r.N(200, 3000)
+	r.Par(n, func(i int) {
+		id := fmt.Sprintf("g/%d", i)
+		if !r.Want(id) {
+			return
+		}
+		rng := r.Rng(id)
+		m, err := gen.GenModel(rng, optConfig(rng, i))
+		if err != nil {
+			r.Class("g:model-not-decided (refused by protodesc)")
+			return
+		}
+		for v := 0; v < 2; v++ {
+			var stf func(int) *gen.Style
+			if v > 0 {
+				stf = styleFn(r.Rng(fmt.Sprintf("%s/r%d", id, v)), "st")
+			}
+			src, err := m.Sources(stf)
+			if err != nil {
+				r.Inconclusive("render: " + err.Error())
+				continue
+			}
+			for _, md := range c22Modes {
+				vid := fmt.Sprintf("%s/r%d/%s", id, v, md.name)
+				if !r.Want(vid) {
+					continue
+				}
+				out := gen.Compile(src, m.Names(), gen.Opts{SourceInfo: md.mode})
+				if !out.OK() {
+					r.Class("g:rejected (decided by C01/C20)")
+					continue
+				}
+				protos := gen.AllProtos(out.Files)
+				for _, f := range m.Files {
+					fd := protos[f.GetName()]
+					if fd == nil {
+						continue
+					}
+					fid := vid + "/" + f.GetName()
+					if !r.Want(fid) {
+						continue
+					}
+					cov := checkStrip(r, fid, md.name, fd, m.Types, map[string]any{"source": src[f.GetName()]})
+					if v == 0 && md.mode == protocompile.SourceInfoNone {
+						addCov(r, cov)
+					}
+				}
+			}
+		}
+	})
+}
+
+const c22MinSchema = `syntax = "proto2";
+package c22;
+import "google/protobuf/descriptor.proto";
+message M {
+  optional int32 keep = 1;
+  optional int32 drop = 2 [retention = RETENTION_SOURCE];
+  optional M sub = 3;
+  repeated M list = 4;
+  map<string, M> map = 5;
+  extensions 100 to 200;
+}
+extend M { optional int32 xdrop = 100 [retention = RETENTION_SOURCE]; }
+extend google.protobuf.MessageOptions {
+  optional M m = 50000;
+  optional int32 top_drop = 50001 [retention = RETENTION_SOURCE];
+  optional int32 top_keep = 50002;
+}
+`
+
+var c22Fixtures = []struct{ name, body string }{
+	{"nested-singular", "message T { option (m) = { keep: 1 drop: 2 }; }"},
+	{"nested-path", "message T { option (m).keep = 1; option (m).drop = 2; }"},
+	{"nested-depth2", "message T { option (m) = { keep: 1 sub { keep: 3 drop: 4 } }; }"},
+	{"nested-list", "message T { option (m) = { list { keep: 1 drop: 2 } list { keep: 3 } }; }"},
+	{"nested-map", "message T { option (m) = { map { key: 'a' value { keep: 1 drop: 2 } } }; }"},
+	{"nested-ext-of-ext", "message T { option (m) = { keep: 1 [c22.xdrop]: 5 }; }"},
+	{"top-level", "message T { option (top_drop) = 1; option (top_keep) = 2; }"},
+	{"top-level-only", "message T { option (top_drop) = 1; }"},
+	{"nothing-to-strip", "message T { option (m) = { keep: 1 }; option (top_keep) = 2; }"},
+}
+
+// c22Fixed runs small fixed inputs: one per place where a source-retained
+// field can occur. The first is the minimal witness of defect S14.
+func c22Fixed(r *vlib.Run) {
+	if !r.Mine(0) {
+		return
+	}
+	for _, fx := range c22Fixtures {
+		for _, md := range c22Modes {
+			id := "fixed/" + fx.name + "/" + md.name
+			if !r.Want(id) {
+				continue
+			}
+			src := map[string]string{"c22.proto": c22MinSchema + fx.body + "\n"}
+			out := gen.Compile(src, []string{"c22.proto"}, gen.Opts{SourceInfo: md.mode})
+			if !out.OK() {
+				r.Inconclusive("fixed input rejected: " + out.ErrSummary())
+				continue
+			}
+			fd := gen.Protos(out.Files)["c22.proto"]
+			bare := proto.Clone(fd).(*descriptorpb.FileDescriptorProto)
+			bare.SourceCodeInfo = nil
+			reg, errs := gen.BuildFilesLenient([]*descriptorpb.FileDescriptorProto{bare})
+			if len(errs) > 0 {
+				r.Inconclusive("fixed input refused by protodesc")
+				continue
+			}
+			checkStrip(r, id, md.name, fd, gen.TypesOf(reg), map[string]any{"source": src["c22.proto"]})
+			r.Class("fixed input checked")
+		}
+	}
+}
+
+func c22R2(r *vlib.Run) {
+	if !r.Mine(0) {
+		return
+	}
+	w, err := loadR2World()
+	if err != nil {
+		r.Inconclusive("R2: " + err.Error())
+		return
+	}
+	for _, e := range w.entries {
+		if !strings.Contains(e.Name, "/retention/") || e.Source == "" {
+			continue
+		}
+		for _, md := range c22Modes {
+			id := "r2/" + e.Name + "/" + md.name
+			if !r.Want(id) {
+				continue
+			}
+			out := gen.Compile(w.closure(e.Name), []string{e.Name}, gen.Opts{SourceInfo: md.mode})
+			if !out.OK() {
+				r.Class("r2:rejected (decided by C01)")
+				continue
+			}
+			fd := gen.Protos(out.Files)[e.Name]
+			checkStrip(r, id, md.name, fd, w.types, map[string]any{"corpus file": e.Name})
+			// protoc's own recorded answer
+			stripped, err := options.StripSourceRetentionOptionsFromFile(fd)
+			if err != nil {
+				continue
+			}
+			got, err1 := gen.Normalize(stripped, w.types)
+			want, err2 := gen.Normalize(e.Desc, w.types)
+			if err1 != nil || err2 != nil {
+				r.Inconclusive(fmt.Sprint("R2 decode: ", err1, err2))
+				continue
+			}
+			r.Eval(id + "/protoc")
+			seen := map[string]bool{}
+			ds := diffStrip(got, want)
+			for _, d := range ds {
+				sig := diffSig(d)
+				if seen[sig] {
+					continue
+				}
+				seen[sig] = true
+				r.Violation("c22.output-differs", sig, id, map[string]any{"file": e.Name, "oracle": "protoc's recorded descriptor (R2)", "difference": d.Text, "all differences": diffTexts(ds, 12)})
+			}
+			r.Class("r2:compared with protoc's recorded output")
+		}
+	}
 }
